@@ -49,7 +49,7 @@ func runWedge(c *ctx) {
 	c.emit("T conc.facts = ok")
 	type sc struct{ sessions, urrs, latus int }
 	// below the queue sizes (must stay alive) and beyond both of them (512 timer events in one loop turn, 128 sessions in one tick)
-	scen := []sc{{20, 1, 0}, {100, 2, 50}, {300, 2, 200}}
+	scen := []sc{{20, 1, 0}, {100, 2, 50}, {200, 1, 100}, {250, 2, 20}, {300, 2, 200}}
 	if c.thorough() {
 		scen = append(scen, sc{700, 2, 200}, sc{700, 2, 0}, sc{400, 2, 500}, sc{1200, 1, 100})
 	}
